@@ -100,6 +100,9 @@ class SimInverter:
     def _aa55(self, req: bytes) -> bytes | None:
         if self.aa55.get("mute"):
             return None
+        # like a real device: a frame whose length byte or checksum is wrong is not a request (Registers.tla / Wire!ParseAa55)
+        if len(req) < 9 or req[6] != len(req) - 9 or (sum(req[:-2]) & 0xFFFF) != int.from_bytes(req[-2:], "big"):
+            return None
         ctl, fn, ln = req[4], req[5], req[6]
         pl = req[7:7 + ln]
         # response type: function | 0x80, except the two commands for which the library expects another one
